@@ -353,6 +353,26 @@ def _impl(tier, seed, search):
     }
     for name, f in REJ.items():
         L.raises('unknown-option', f, dict(call=name), f'{name} must be rejected with an exception', sig=f'unknown-option:{name}')
+    # round 11: the unit option of Twist2.exp / Twist3.exp on *prismatic* twists (the library converts the parameter like any other angle
+    # argument, printing a notice): degrees = radians·π/180, scalar and sequence; a misspelt unit is rejected there too
+    import io as _io, contextlib as _cl
+    for nmp_, Pp_ in (('Twist2.Prismatic', lambda: Tw2_.Prismatic([1.0, 2.0])), ('Twist2([vx,vy,0])', lambda: Tw2_([0.5, -1.5, 0.0])),
+                      ('Twist3.Prismatic', lambda: Tw3_.Prismatic([1.0, 2.0, 2.0])), ('Twist3([v,0])', lambda: Tw3_([0.5, -1.5, 2.0, 0, 0, 0]))):
+        def both_(arg_d, arg_r):
+            with _cl.redirect_stdout(_io.StringIO()):
+                A_ = Pp_().exp(arg_d, units='deg'); B_ = Pp_().exp(arg_r)
+            return [np.asarray(x_.A, float) for x_ in A_], [np.asarray(x_.A, float) for x_ in B_]
+        for argd_ in (30.0, -725.0, [30.0, 60.0], np.array([10.0, 200.0, -45.0])):
+            argr_ = (np.asarray(argd_, float) * math.pi / 180); argr_ = float(argr_) if argr_.ndim == 0 else argr_
+            inp_ = dict(twist=nmp_, theta_deg=argd_)
+            ok, r = L.noraise(f'{nmp_}.exp(deg)', lambda: both_(argd_, argr_), inp_, f'{nmp_}.exp(theta, units="deg")', sig=f'prismatic-exp-deg:{nmp_}:raises')
+            if ok:
+                L.check(f'{nmp_}.exp(deg):len', len(r[0]) == len(r[1]), inp_, 'degree and radian calls return different numbers of poses')
+                for A_, B_ in zip(*r):
+                    L.close(f'{nmp_}.exp(deg)', A_, B_, 1e-12, max(1.0, float(np.max(np.abs(B_)))), inp_, what='exp(θ, units="deg") of a prismatic twist is not exp(θ·π/180)', sig=f'prismatic-exp-deg:{nmp_}')
+        def bad_():
+            with _cl.redirect_stdout(_io.StringIO()): return Pp_().exp(30.0, units='degrees')
+        L.raises('unknown-option', bad_, dict(call=f'{nmp_}.exp(units=degrees)'), f'{nmp_}.exp(30, units="degrees") must be rejected with an exception', sig=f'unknown-option:{nmp_}.exp(units=degrees)')
     res = L.result(); res['exhaustive'] = True
     return res
 
